@@ -6,10 +6,14 @@ C01 — emitted MIR is referentially closed, correctly scoped and acyclic.
 (2) for **every** store and output list, every table the compile model emits is closed under
     operand references, files each id once, consists of store entries, and contains the outputs'
     / functions' designated operations (`Lemmas/CompileClosed.lean`, induction over the traversal);
-(3) for stores in which operand ids are smaller than the referring id, the tables are acyclic.
+(3) for stores in which operand ids are smaller than the referring id, the tables are acyclic;
+(4) **every** trace establishes such a store: `trace_storeWF` (`Lemmas/TraceInv.lean`, a Hoare-logic
+    proof over the code of `exec`, all 28 commands, accepted or rejected), hence
+    `trace_compile_acyclic`: whatever program was traced, every MIR compiled from it is acyclic.
 -/
 import NadaVerif.Spec.Schema
 import NadaVerif.Lemmas.CompileClosed
+import NadaVerif.Lemmas.TraceInv
 
 namespace NadaVerif.C01
 open NadaVerif NadaVerif.Spec NadaVerif.Lemmas NadaVerif.Generated
@@ -74,6 +78,19 @@ theorem compile_acyclic (st : St) (outs : List OutDecl) (m : MirProg)
   have hm := lookup_mem st e.1 e.2 hl
   simp only [storeWF, List.all_eq_true] at hwf
   exact hwf _ hm c hc
+
+/-- **Whole pipeline**: trace any command list (any program, any rejected commands in between), compile any
+output list from the resulting store — if the compilation succeeds, the MIR is acyclic. -/
+theorem trace_compile_acyclic (cs : List Cmd) (outs : List OutDecl) (m : MirProg)
+    (h : compile (runCmds {} cs).1.st outs = .ok m) : acyclic m = true :=
+  compile_acyclic _ outs m (trace_storeWF cs) h
+
+/-- … and so is every MIR compiled at any later point of a history that continues the trace. -/
+theorem history_compile_acyclic (cs more : List Cmd) (outs : List OutDecl) (m : MirProg)
+    (h : compile (runCmds (runCmds {} cs).1 more).1.st outs = .ok m) : acyclic m = true := by
+  have h0 : MachOK (runCmds {} cs).1 := runCmds_ok cs {} ⟨by simp [WFops], by simp [RegsLe]⟩
+  have h1 := runCmds_ok more _ h0
+  exact compile_acyclic _ outs m ((storeWF_iff _).2 h1.1) h
 
 /-! Non-vacuity: a concrete store and compilation satisfying the hypotheses. -/
 def exSt : St := St.mk 3
